@@ -13,7 +13,10 @@ ONE of the step lists `Is` and that the boolean flag is the same on all rows of 
 `EAO.Lemmas.SplitBuild` under the weaker hypothesis (the lemmas that never used `same_step` / `no_bool` are re-proved
 for `WB`, the rest of `Banded`; the lemmas without a `Banded` hypothesis are used as they are); the boolean index sets
 of the renamed unsplit problem and of the block sum are compared through the mapping rows.  Part 2: what the five
-builders and the order book give.
+builders and the order book give.  Part 3: dropping the inert variables of an ASSEMBLED problem is assembling the asset
+problems without their unmapped variables (`assemble_dropInert`, equality of problems).  Part 4: the literal loop
+`setupSplitOB` — every pass returns a problem that, without its inert variables, is the interval problem of the unsplit
+asset problems; hence `splitWitnessModInert` holds for the literal output (`setupSplitOB_witness`).
 -/
 namespace EAO.ObSplit2
 open EAO EAO.Split EAO.SplitBuild
@@ -914,6 +917,894 @@ theorem buildOSpec_intervalBanded (specs : List OSpec) (ref : Grid) (cuts : List
       simp [hc] at this
     · intro o ho I hI
       exact h1 o ho I hI
+
+/-! ## Part 3: dropping the inert variables of an assembled problem -/
+
+/-- the variables of an asset problem that have a mapping row, in the asset's order -/
+def mappedVars (b : AssetProblem) : List Nat :=
+  (List.range b.n).filter fun v => b.mapping.any fun m => m.var == v
+
+/-- **the asset problem without its unmapped variables** -/
+def livePart (b : AssetProblem) : AssetProblem := b.subVars (mappedVars b)
+
+theorem mem_mappedVars (b : AssetProblem) (v : Nat) :
+    v ∈ mappedVars b ↔ v < b.n ∧ ∃ m ∈ b.mapping, m.var = v := by
+  simp [mappedVars, List.mem_filter, List.any_eq_true]
+
+@[simp] theorem livePart_n (b : AssetProblem) : (livePart b).n = (mappedVars b).length := by
+  simp [livePart, AssetProblem.subVars, AssetProblem.n]
+
+/-- an asset problem whose unmapped variables are inert: bounds per variable, mapping rows over its variables, rows only
+    over MAPPED variables, an unmapped variable has zero cost and a non-empty box -/
+structure InertOK (b : AssetProblem) : Prop where
+  l_len   : b.l.length = b.n
+  u_len   : b.u.length = b.n
+  map_var : ∀ m ∈ b.mapping, m.var < b.n
+  rows_ok : ∀ r ∈ b.rows, ∀ q ∈ r.coeffs, q.1 ∈ mappedVars b
+  cost    : ∀ v, v < b.n → v ∉ mappedVars b → b.c.getD v 0 = 0
+  box     : ∀ v, v < b.n → v ∉ mappedVars b → b.l.getD v 0 ≤ b.u.getD v 0
+
+/-- mapped variables of the assets, as variables of the concatenation from offset `off` -/
+def liveFrom : Nat → List AssetProblem → List Nat
+  | _, [] => []
+  | off, b :: rest => (mappedVars b).map (off + ·) ++ liveFrom (off + b.n) rest
+
+theorem liveFrom_cons (off : Nat) (b : AssetProblem) (rest : List AssetProblem) :
+    liveFrom off (b :: rest) = (mappedVars b).map (off + ·) ++ liveFrom (off + b.n) rest := rfl
+
+theorem liveFrom_ge (off : Nat) (bs : List AssetProblem) : ∀ u ∈ liveFrom off bs, off ≤ u := by
+  induction bs generalizing off with
+  | nil => intro u hu; simp [liveFrom] at hu
+  | cons b rest ih =>
+    intro u hu
+    rw [liveFrom_cons] at hu
+    rcases List.mem_append.mp hu with h | h
+    · obtain ⟨v, _, rfl⟩ := List.mem_map.mp h; omega
+    · have := ih (off + b.n) u h; omega
+
+theorem liveFrom_shift (off : Nat) (bs : List AssetProblem) :
+    liveFrom off bs = (liveFrom 0 bs).map (off + ·) := by
+  induction bs generalizing off with
+  | nil => simp [liveFrom]
+  | cons b rest ih =>
+    simp only [liveFrom, List.map_append, List.map_map, Nat.zero_add]
+    rw [ih (off + b.n), ih b.n]
+    simp only [List.map_map]
+    congr 1
+    apply List.map_congr_left; intro v _; simp; omega
+
+theorem af_var_ge (bs : List AssetProblem) (off : Nat) : ∀ m ∈ (assembleFrom off bs).mapping, off ≤ m.var := by
+  induction bs generalizing off with
+  | nil => intro m hm; simp at hm
+  | cons b rest ih =>
+    intro m hm
+    rw [assembleFrom_cons_mapping] at hm
+    rcases List.mem_append.mp hm with h | h
+    · obtain ⟨m', _, rfl⟩ := List.mem_map.mp h
+      show off ≤ off + m'.var; omega
+    · have := ih (off + b.n) m h; omega
+
+theorem af_rows_ge (bs : List AssetProblem) (off : Nat) :
+    ∀ r ∈ (assembleFrom off bs).rows, ∀ q ∈ r.coeffs, off ≤ q.1 := by
+  induction bs generalizing off with
+  | nil => intro r hr; simp at hr
+  | cons b rest ih =>
+    intro r hr q hq
+    rw [assembleFrom_cons_rows] at hr
+    rcases List.mem_append.mp hr with h | h
+    · obtain ⟨r', _, rfl⟩ := List.mem_map.mp h
+      simp only [Row.rename, List.mem_map] at hq
+      obtain ⟨q', _, rfl⟩ := hq
+      show off ≤ off + q'.1; omega
+    · have := ih (off + b.n) r h q hq; omega
+
+/-- the mapped variables of the assets, concatenated, are the mapped variables of the concatenation -/
+theorem liveFrom_eq_filter (bs : List AssetProblem) (hB : ∀ b ∈ bs, ∀ m ∈ b.mapping, m.var < b.n) (off : Nat) :
+    liveFrom off bs =
+      ((List.range ((bs.map (·.n)).sum)).filter fun j =>
+        (assembleFrom off bs).mapping.any fun m => m.var == off + j).map (off + ·) := by
+  induction bs generalizing off with
+  | nil => simp [liveFrom]
+  | cons b rest ih =>
+    have hb := hB b (by simp)
+    have hB' : ∀ c ∈ rest, ∀ m ∈ c.mapping, m.var < c.n := fun c hc => hB c (by simp [hc])
+    have hr := af_var_ge rest (off + b.n)
+    simp only [liveFrom, List.map_cons, List.sum_cons]
+    rw [List.range_add, List.filter_append, List.map_append, ih hB' (off + b.n), assembleFrom_cons_mapping]
+    congr 1
+    · unfold mappedVars
+      congr 1
+      apply List.filter_congr
+      intro j hj
+      have hj' : j < b.n := List.mem_range.mp hj
+      rw [Bool.eq_iff_iff, List.any_eq_true, List.any_eq_true]
+      constructor
+      · rintro ⟨m, hm, hv⟩
+        refine ⟨m.shift off, List.mem_append_left _ (List.mem_map_of_mem hm), ?_⟩
+        have : m.var = j := by simpa using hv
+        simp [MapRow.shift, this]
+      · rintro ⟨m, hm, hv⟩
+        have hv' : m.var = off + j := by simpa using hv
+        rcases List.mem_append.mp hm with h | h
+        · obtain ⟨m', hm', rfl⟩ := List.mem_map.mp h
+          refine ⟨m', hm', ?_⟩
+          have : off + m'.var = off + j := hv'
+          simp; omega
+        · have := hr m h; omega
+    · rw [List.filter_map, List.map_map]
+      have e : (fun x => off + x) ∘ (fun x => b.n + x) = fun x => off + b.n + x := by
+        funext x; simp; omega
+      rw [e]
+      congr 1
+      apply List.filter_congr
+      intro j _
+      simp only [Function.comp]
+      rw [Bool.eq_iff_iff, List.any_eq_true, List.any_eq_true]
+      constructor
+      · rintro ⟨m, hm, hv⟩
+        have hv' : m.var = off + b.n + j := by simpa using hv
+        exact ⟨m, List.mem_append_right _ hm, by simp; omega⟩
+      · rintro ⟨m, hm, hv⟩
+        have hv' : m.var = off + (b.n + j) := by simpa using hv
+        rcases List.mem_append.mp hm with h | h
+        · obtain ⟨m', hm', rfl⟩ := List.mem_map.mp h
+          have := hb m' hm'
+          have : off + m'.var = off + (b.n + j) := hv'
+          omega
+        · exact ⟨m, h, by simp; omega⟩
+
+/-- an unmapped variable of the concatenation has zero cost and a non-empty box -/
+theorem af_unmapped (bs : List AssetProblem) (hB : ∀ b ∈ bs, InertOK b) (off : Nat) (j : Nat)
+    (hj : j < (bs.map (·.n)).sum) (hu : ∀ m ∈ (assembleFrom off bs).mapping, m.var ≠ off + j) :
+    (assembleFrom off bs).c.getD j 0 = 0 ∧ (assembleFrom off bs).l.getD j 0 ≤ (assembleFrom off bs).u.getD j 0 := by
+  induction bs generalizing off j with
+  | nil => simp at hj
+  | cons b rest ih =>
+    have hb := hB b (by simp)
+    rw [assembleFrom_cons_c, assembleFrom_cons_l, assembleFrom_cons_u]
+    rw [assembleFrom_cons_mapping] at hu
+    simp only [List.map_cons, List.sum_cons] at hj
+    by_cases hlt : j < b.n
+    · have hnm : j ∉ mappedVars b := by
+        intro hm
+        obtain ⟨_, m, hm', hv⟩ := (mem_mappedVars b j).mp hm
+        exact hu (m.shift off) (List.mem_append_left _ (List.mem_map_of_mem hm')) (by simp [MapRow.shift, hv])
+      have h1 : j < b.c.length := hlt
+      have h2 : j < b.l.length := by rw [hb.l_len]; exact hlt
+      have h3 : j < b.u.length := by rw [hb.u_len]; exact hlt
+      have e1 : (b.c ++ (assembleFrom (off + b.n) rest).c).getD j 0 = b.c.getD j 0 := by
+        simp [List.getD_eq_getElem?_getD, List.getElem?_append_left h1]
+      have e2 : (b.l ++ (assembleFrom (off + b.n) rest).l).getD j 0 = b.l.getD j 0 := by
+        simp [List.getD_eq_getElem?_getD, List.getElem?_append_left h2]
+      have e3 : (b.u ++ (assembleFrom (off + b.n) rest).u).getD j 0 = b.u.getD j 0 := by
+        simp [List.getD_eq_getElem?_getD, List.getElem?_append_left h3]
+      rw [e1, e2, e3]
+      exact ⟨hb.cost j hlt hnm, hb.box j hlt hnm⟩
+    · have hge : b.n ≤ j := Nat.le_of_not_lt hlt
+      obtain ⟨g1, g2⟩ := ih (fun c hc => hB c (by simp [hc])) (off + b.n) (j - b.n) (by omega)
+        (fun m hm hv => hu m (List.mem_append_right _ hm) (by omega))
+      have h1 : b.c.length ≤ j := hge
+      have h2 : b.l.length ≤ j := by rw [hb.l_len]; exact hge
+      have h3 : b.u.length ≤ j := by rw [hb.u_len]; exact hge
+      have e1 : (b.c ++ (assembleFrom (off + b.n) rest).c).getD j 0 =
+          (assembleFrom (off + b.n) rest).c.getD (j - b.n) 0 := by
+        simp [List.getD_eq_getElem?_getD, List.getElem?_append_right h1, AssetProblem.n]
+      have e2 : (b.l ++ (assembleFrom (off + b.n) rest).l).getD j 0 =
+          (assembleFrom (off + b.n) rest).l.getD (j - b.n) 0 := by
+        simp [List.getD_eq_getElem?_getD, List.getElem?_append_right h2, hb.l_len]
+      have e3 : (b.u ++ (assembleFrom (off + b.n) rest).u).getD j 0 =
+          (assembleFrom (off + b.n) rest).u.getD (j - b.n) 0 := by
+        simp [List.getD_eq_getElem?_getD, List.getElem?_append_right h3, hb.u_len]
+      rw [e1, e2, e3]
+      exact ⟨g1, g2⟩
+
+/-- every variable of a row of the concatenation has a mapping row -/
+theorem af_rows_mapped (bs : List AssetProblem) (hB : ∀ b ∈ bs, InertOK b) (off : Nat) :
+    ∀ r ∈ (assembleFrom off bs).rows, ∀ q ∈ r.coeffs, ∃ m ∈ (assembleFrom off bs).mapping, m.var = q.1 := by
+  induction bs generalizing off with
+  | nil => intro r hr; simp at hr
+  | cons b rest ih =>
+    intro r hr q hq
+    rw [assembleFrom_cons_rows] at hr
+    rw [assembleFrom_cons_mapping]
+    rcases List.mem_append.mp hr with h | h
+    · obtain ⟨r', hr', rfl⟩ := List.mem_map.mp h
+      simp only [Row.rename, List.mem_map] at hq
+      obtain ⟨q', hq', rfl⟩ := hq
+      obtain ⟨_, m, hm, hv⟩ := (mem_mappedVars b q'.1).mp ((hB b (by simp)).rows_ok r' hr' q' hq')
+      exact ⟨m.shift off, List.mem_append_left _ (List.mem_map_of_mem hm), by simp [MapRow.shift, hv]⟩
+    · obtain ⟨m, hm, hv⟩ := ih (fun c hc => hB c (by simp [hc])) (off + b.n) r h q hq
+      exact ⟨m, List.mem_append_right _ hm, hv⟩
+
+/-- **the live variables of an assembled problem are the mapped variables of its assets** -/
+theorem assemble_live (bs : List AssetProblem) (hB : ∀ b ∈ bs, InertOK b) (gridI : List Nat) (skip : List String) :
+    (assemble bs gridI skip).live = liveFrom 0 bs := by
+  rw [liveFrom_eq_filter bs (fun b hb => (hB b hb).map_var) 0]
+  unfold Problem.live
+  rw [assemble_n, assembleFrom_n]
+  simp only [Nat.zero_add]
+  have hid : (fun x : Nat => x) = id := rfl
+  rw [hid, List.map_id]
+  apply List.filter_congr
+  intro v hv
+  have hv' : v < (bs.map (·.n)).sum := List.mem_range.mp hv
+  cases hM : (assembleFrom 0 bs).mapping.any (fun m => m.var == v) with
+  | true =>
+    simp [Problem.inertVar, hM]
+  | false =>
+    have hu : ∀ m ∈ (assembleFrom 0 bs).mapping, m.var ≠ 0 + v := by
+      intro m hm hv2
+      have : (assembleFrom 0 bs).mapping.any (fun m => m.var == v) = true :=
+        List.any_eq_true.mpr ⟨m, hm, by simp at hv2; simp [hv2]⟩
+      rw [hM] at this; cases this
+    obtain ⟨g1, g2⟩ := af_unmapped bs hB 0 v hv' hu
+    have hR : ((assemble bs gridI skip).rows.any fun r => r.coeffs.any fun q => q.1 == v) = false := by
+      rw [Bool.eq_false_iff]
+      intro h
+      obtain ⟨r, hr, hq⟩ := List.any_eq_true.mp h
+      obtain ⟨q, hq, hqv⟩ := List.any_eq_true.mp hq
+      have hqv' : q.1 = v := by simpa using hqv
+      rw [assemble_rows] at hr
+      rcases List.mem_append.mp hr with h1 | h1
+      · obtain ⟨m, hm, hmv⟩ := af_rows_mapped bs hB 0 r h1 q hq
+        exact hu m hm (by omega)
+      · obtain ⟨⟨t, n⟩, _, rfl⟩ := List.mem_map.mp h1
+        obtain ⟨m1, hm1, _, rfl⟩ := mem_nodalRow_coeffs _ _ _ _ hq
+        exact hu m1 hm1 (by simpa using hqv')
+    simp only [List.getD_eq_getElem?_getD] at g1 g2
+    simp [Problem.inertVar, hR]
+    exact ⟨⟨g1, g2⟩, fun m hm hv2 => hu m hm (by omega)⟩
+
+/-! ### the fields of the renamed problem -/
+
+theorem live_flat (f : AssetProblem → List Rat) (bs : List AssetProblem) (hf : ∀ b ∈ bs, (f b).length = b.n) :
+    (liveFrom 0 bs).map (fun u => (bs.flatMap f).getD u 0) =
+      bs.flatMap fun b => (mappedVars b).map fun v => (f b).getD v 0 := by
+  induction bs with
+  | nil => simp [liveFrom]
+  | cons b rest ih =>
+    have hb := hf b (by simp)
+    simp only [liveFrom, List.flatMap_cons, List.map_append, List.map_map, Nat.zero_add]
+    congr 1
+    · apply List.map_congr_left
+      intro v hv
+      have hv' : v < (f b).length := by rw [hb]; exact ((mem_mappedVars b v).mp hv).1
+      simp [List.getD_eq_getElem?_getD, List.getElem?_append_left hv']
+    · rw [liveFrom_shift, ← ih (fun c hc => hf c (by simp [hc])), List.map_map]
+      apply List.map_congr_left
+      intro u _
+      simp only [Function.comp]
+      rw [← hb]
+      simp [List.getD_eq_getElem?_getD, List.getElem?_append_right]
+
+theorem live_c (bs : List AssetProblem) (off : Nat) :
+    (assembleFrom off (bs.map livePart)).c = (liveFrom 0 bs).map fun u => (assembleFrom 0 bs).c.getD u 0 := by
+  rw [flat_c, flat_c, live_flat (·.c) bs (fun b _ => rfl), List.flatMap_map]
+  rfl
+
+theorem live_l (bs : List AssetProblem) (off : Nat) (h : ∀ b ∈ bs, b.l.length = b.n) :
+    (assembleFrom off (bs.map livePart)).l = (liveFrom 0 bs).map fun u => (assembleFrom 0 bs).l.getD u 0 := by
+  rw [flat_l, flat_l, live_flat (·.l) bs h, List.flatMap_map]
+  rfl
+
+theorem live_u (bs : List AssetProblem) (off : Nat) (h : ∀ b ∈ bs, b.u.length = b.n) :
+    (assembleFrom off (bs.map livePart)).u = (liveFrom 0 bs).map fun u => (assembleFrom 0 bs).u.getD u 0 := by
+  rw [flat_u, flat_u, live_flat (·.u) bs h, List.flatMap_map]
+  rfl
+
+theorem idxOf_liveFrom_head (off : Nat) (b : AssetProblem) (rest : List AssetProblem) (v : Nat)
+    (hv : v ∈ mappedVars b) : (liveFrom off (b :: rest)).idxOf (off + v) = (mappedVars b).idxOf v := by
+  rw [liveFrom_cons, idxOf_append_left _ _ _ (List.mem_map_of_mem hv)]
+  exact idxOf_map_inj (off + ·) (fun x y h => by omega) _ v
+
+theorem idxOf_liveFrom_tail (off : Nat) (b : AssetProblem) (rest : List AssetProblem) (u : Nat)
+    (hu : off + b.n ≤ u) :
+    (liveFrom off (b :: rest)).idxOf u = (livePart b).n + (liveFrom (off + b.n) rest).idxOf u := by
+  rw [liveFrom_cons, idxOf_append_right]
+  · simp
+  · intro h
+    obtain ⟨v, hv, rfl⟩ := List.mem_map.mp h
+    have := ((mem_mappedVars b v).mp hv).1
+    omega
+
+theorem live_mapping (bs : List AssetProblem) (hB : ∀ b ∈ bs, ∀ m ∈ b.mapping, m.var < b.n) (off off' : Nat) :
+    (assembleFrom off' (bs.map livePart)).mapping =
+      (assembleFrom off bs).mapping.map (MapRow.rename fun u => off' + (liveFrom off bs).idxOf u) := by
+  induction bs generalizing off off' with
+  | nil => simp
+  | cons b rest ih =>
+    have hb := hB b (by simp)
+    have hB' : ∀ c ∈ rest, ∀ m ∈ c.mapping, m.var < c.n := fun c hc => hB c (by simp [hc])
+    rw [List.map_cons, assembleFrom_cons_mapping, assembleFrom_cons_mapping, List.map_append]
+    congr 1
+    · show (b.mapping.map _).map _ = _
+      rw [List.map_map, List.map_map]
+      apply List.map_congr_left
+      intro m hm
+      have hv : m.var ∈ mappedVars b := (mem_mappedVars b m.var).mpr ⟨hb m hm, m, hm, rfl⟩
+      simp only [Function.comp, MapRow.rename, MapRow.shift]
+      rw [idxOf_liveFrom_head off b rest m.var hv]
+    · rw [ih hB' (off + b.n) (off' + (livePart b).n)]
+      apply List.map_congr_left
+      intro m hm
+      have hge := af_var_ge rest (off + b.n) m hm
+      simp only [MapRow.rename]
+      rw [idxOf_liveFrom_tail off b rest m.var hge]
+      congr 1
+      omega
+
+theorem live_rows (bs : List AssetProblem) (hB : ∀ b ∈ bs, ∀ r ∈ b.rows, ∀ q ∈ r.coeffs, q.1 ∈ mappedVars b)
+    (off off' : Nat) :
+    (assembleFrom off' (bs.map livePart)).rows =
+      (assembleFrom off bs).rows.map (Row.rename fun u => off' + (liveFrom off bs).idxOf u) := by
+  induction bs generalizing off off' with
+  | nil => simp
+  | cons b rest ih =>
+    have hb := hB b (by simp)
+    rw [List.map_cons, assembleFrom_cons_rows, assembleFrom_cons_rows, List.map_append]
+    congr 1
+    · show (b.rows.map _).map _ = _
+      rw [List.map_map, List.map_map]
+      apply List.map_congr_left
+      intro r hr
+      simp only [Function.comp, rename_rename]
+      apply rename_congr
+      intro q hq
+      rw [idxOf_liveFrom_head off b rest q.1 (hb r hr q hq)]
+    · rw [ih (fun c hc => hB c (by simp [hc])) (off + b.n) (off' + (livePart b).n)]
+      apply List.map_congr_left
+      intro r hr
+      apply rename_congr
+      intro q hq
+      have hge : off + b.n ≤ q.1 := af_rows_ge rest (off + b.n) r hr q hq
+      rw [idxOf_liveFrom_tail off b rest q.1 hge]
+      omega
+
+theorem nodalPairs_rename (M : List MapRow) (τ : Nat → Nat) (nodes skip : List String) (gridI : List Nat) :
+    nodalPairs (M.map (MapRow.rename τ)) nodes skip gridI = nodalPairs M nodes skip gridI := by
+  unfold nodalPairs
+  have e : ∀ n t, (M.map (MapRow.rename τ)).any (isDisp n t) = M.any (isDisp n t) := by
+    intro n t
+    rw [List.any_map]
+    rfl
+  simp only [e]
+
+theorem nodalRow_rename (M : List MapRow) (τ : Nat → Nat) (n : String) (t : Nat) :
+    nodalRow (M.map (MapRow.rename τ)) n t = (nodalRow M n t).rename τ := by
+  unfold nodalRow Row.rename
+  simp only [List.filter_map, List.map_map]
+  rfl
+
+theorem portfolioNodes_livePart (bs : List AssetProblem) : portfolioNodes (bs.map livePart) = portfolioNodes bs := by
+  unfold portfolioNodes
+  rw [List.flatMap_map]
+  rfl
+
+/-- **Dropping the inert variables of an assembled problem = assembling the asset problems without their unmapped
+    variables** (equality of problems: cost, bounds, rows in order, mapping, nodal record) -/
+theorem assemble_dropInert (bs : List AssetProblem) (hB : ∀ b ∈ bs, InertOK b) (gridI : List Nat)
+    (skip : List String) :
+    (assemble bs gridI skip).dropInert = assemble (bs.map livePart) gridI skip := by
+  have hmap := live_mapping bs (fun b hb => (hB b hb).map_var) 0 0
+  have hrows := live_rows bs (fun b hb => (hB b hb).rows_ok) 0 0
+  simp only [Nat.zero_add] at hmap hrows
+  unfold Problem.dropInert
+  rw [assemble_live bs hB gridI skip]
+  unfold Problem.renameAlong assemble
+  simp only [portfolioNodes_livePart]
+  rw [hmap, nodalPairs_rename]
+  show Problem.mk _ _ _ _ _ _ = Problem.mk _ _ _ _ _ _
+  congr 1
+  · exact (live_c bs 0).symm
+  · exact (live_l bs 0 (fun b hb => (hB b hb).l_len)).symm
+  · exact (live_u bs 0 (fun b hb => (hB b hb).u_len)).symm
+  · rw [List.map_append, hrows, List.map_map]
+    congr 1
+    apply List.map_congr_left
+    intro p _
+    simp only [Function.comp]
+    exact (nodalRow_rename _ _ _ _).symm
+
+theorem relabelNodal_dropInert (I : List Nat) (P : Problem) :
+    (relabelNodal I P).dropInert = relabelNodal I P.dropInert := rfl
+
+/-! ## Part 4: the literal split set-up with order books -/
+
+theorem map_getD_range (l : List Rat) : (List.range l.length).map (fun i => l.getD i 0) = l := by
+  apply List.ext_getElem
+  · simp
+  · intro j h1 h2
+    simp [List.getD_eq_getElem?_getD, h2]
+
+theorem idxOf_range (n v : Nat) (hv : v < n) : (List.range n).idxOf v = v := by
+  have := List.Nodup.idxOf_getElem (List.nodup_range (n := n)) v (by simpa using hv)
+  simpa using this
+
+/-- an asset problem all of whose variables are mapped is its own live part -/
+theorem livePart_of_covered (b : AssetProblem) (hl : b.l.length = b.n) (hu : b.u.length = b.n)
+    (hm : ∀ m ∈ b.mapping, m.var < b.n) (hr : ∀ r ∈ b.rows, ∀ q ∈ r.coeffs, q.1 < b.n)
+    (hcov : ∀ v, v < b.n → ∃ m ∈ b.mapping, m.var = v) : InertOK b ∧ livePart b = b := by
+  have hall : ∀ v, v < b.n → v ∈ mappedVars b := fun v hv => (mem_mappedVars b v).mpr ⟨hv, hcov v hv⟩
+  have hmv : mappedVars b = List.range b.n := by
+    unfold mappedVars
+    rw [List.filter_eq_self]
+    intro v hv
+    obtain ⟨m, hm', hv'⟩ := hcov v (List.mem_range.mp hv)
+    exact List.any_eq_true.mpr ⟨m, hm', by simp [hv']⟩
+  refine ⟨⟨hl, hu, hm, fun r hr' q hq => hall _ (hr r hr' q hq), fun v hv hn => absurd (hall v hv) hn,
+    fun v hv hn => absurd (hall v hv) hn⟩, ?_⟩
+  unfold livePart
+  rw [hmv]
+  rcases b with ⟨name, nodes, c, l, u, rows, mapping⟩
+  simp only [AssetProblem.n] at hl hu hm hr
+  simp only [AssetProblem.subVars, AssetProblem.n, AssetProblem.mk.injEq, true_and]
+  refine ⟨map_getD_range c, ?_, ?_, ?_, ?_⟩
+  · rw [← hl]; exact map_getD_range l
+  · rw [← hu]; exact map_getD_range u
+  · conv => rhs; rw [← List.map_id rows]
+    apply List.map_congr_left
+    intro r hr'
+    have e : r.rename (fun v => (List.range c.length).idxOf v) = r.rename (fun v => v) :=
+      rename_congr _ _ r (fun q hq => idxOf_range _ _ (hr r hr' q hq))
+    rw [e]
+    rcases r with ⟨cs, rhs, kind⟩
+    simp [Row.rename]
+  · conv => rhs; rw [← List.map_id mapping]
+    apply List.map_congr_left
+    intro m hm'
+    simp [MapRow.rename, idxOf_range _ _ (hm m hm')]
+
+/-- a restricted interval-banded asset problem has no unmapped variable -/
+theorem restrictTo_live {a : AssetProblem} {T : Nat} (h : WB a T) (I : List Nat) :
+    InertOK (a.restrictTo I) ∧ livePart (a.restrictTo I) = a.restrictTo I := by
+  obtain ⟨h1, h2, h3, h4⟩ := i_restrictTo_wf h I
+  apply livePart_of_covered _ h1 h2 h3 h4
+  intro v hv
+  rw [restrictTo_n] at hv
+  obtain ⟨_, m, hm, hmv, hs⟩ := (mem_keep a I _).mp (List.getElem_mem hv)
+  refine ⟨{ m with var := (a.keep I).idxOf m.var, step := I.idxOf m.step }, ?_, ?_⟩
+  · simp only [AssetProblem.restrictTo]
+    exact List.mem_map.mpr ⟨m, List.mem_filter.mpr ⟨hm, List.contains_iff_mem.mpr hs⟩, rfl⟩
+  · show (a.keep I).idxOf m.var = v
+    rw [hmv]
+    exact List.Nodup.idxOf_getElem (keep_nodup a I) v hv
+
+theorem wb_live {a : AssetProblem} {T : Nat} (h : WB a T) : InertOK a ∧ livePart a = a :=
+  livePart_of_covered a h.l_len h.u_len h.map_var (fun r hr => (h.rows_ok r hr).2) h.covered
+
+/-- **the order book of an interval**: its unmapped variables are inert, and without them it is the restriction of the
+    unsplit order book -/
+theorem orderBook_live (name node : String) (orders : List Order) (fe : Bool) (g : Grid) (I : List Nat) (hg : g.Ok)
+    (hin : ∀ o ∈ orders, orderInside g I o = true) :
+    InertOK (orderBookProblem name node orders fe (g.pick I)) ∧
+      livePart (orderBookProblem name node orders fe (g.pick I)) =
+        (orderBookProblem name node orders fe g).restrictTo I := by
+  have hn : (orderBookProblem name node orders fe (g.pick I)).n = orders.length := by
+    simp [orderBookProblem, AssetProblem.n]
+  have hn' : (orderBookProblem name node orders fe g).n = orders.length := by
+    simp [orderBookProblem, AssetProblem.n]
+  have hmapvar : ∀ m ∈ (orderBookProblem name node orders fe (g.pick I)).mapping,
+      m.var < (orderBookProblem name node orders fe (g.pick I)).n := by
+    intro m hm
+    obtain ⟨j, o, i, hj, _, rfl⟩ := OrderBook.mem_orderMapFrom name node fe (g.pick I) orders 0 m hm
+    rw [hn]
+    have : j < orders.length := by
+      rcases Nat.lt_or_ge j orders.length with h | h
+      · exact h
+      · rw [List.getElem?_eq_none h] at hj; cases hj
+    simpa [orderRow] using this
+  have hmv : mappedVars (orderBookProblem name node orders fe (g.pick I)) =
+      (orderBookProblem name node orders fe g).keep I := by
+    unfold mappedVars AssetProblem.keep
+    rw [hn, hn']
+    apply List.filter_congr
+    intro k hk
+    have hk' : k < orders.length := List.mem_range.mp hk
+    have ho : orders[k]? = some orders[k] := List.getElem?_eq_getElem hk'
+    rw [Bool.eq_iff_iff, List.any_eq_true]
+    constructor
+    · rintro ⟨m, hm, hv⟩
+      have hv' : m.var = k := by simpa using hv
+      by_cases hkeep : k ∈ (orderBookProblem name node orders fe g).keep I
+      · exact (List.mem_filter.mp hkeep).2
+      · exact absurd hv' ((ObSplit.orderBook_pick_inert name node orders fe g I hg k hk' hkeep).2 m hm)
+    · intro hvs
+      have hkeep : k ∈ (orderBookProblem name node orders fe g).keep I :=
+        List.mem_filter.mpr ⟨by rw [hn']; exact hk, hvs⟩
+      obtain ⟨o, ho', i, hi, hI⟩ := (ObSplit.mem_keep_orderBook name node orders fe g I k).mp hkeep
+      have hmem : i ∈ (coverPos g o).filter fun i => I.contains (g.idx.getD i 0) :=
+        List.mem_filter.mpr ⟨hi, List.contains_iff_mem.mpr hI⟩
+      rw [← ObSplit.coverPos_pick g I hg o] at hmem
+      obtain ⟨j, hj, _⟩ := List.mem_map.mp hmem
+      refine ⟨orderRow name node fe (g.pick I) (0 + k) o j,
+        OrderBook.orderRow_mem_orderMapFrom name node fe (g.pick I) orders 0 k o j ho' hj, ?_⟩
+      simp [orderRow]
+  refine ⟨⟨by simp [orderBookProblem, AssetProblem.n], by simp [orderBookProblem, AssetProblem.n], hmapvar,
+    fun r hr => by simp [orderBookProblem] at hr, ?_, ?_⟩, ?_⟩
+  · intro v hv hnm
+    rw [hn] at hv
+    rw [hmv] at hnm
+    exact (ObSplit.orderBook_pick_inert name node orders fe g I hg v hv hnm).1
+  · intro v hv _
+    rw [hn] at hv
+    simp [orderBookProblem, List.getD_eq_getElem?_getD, hv]
+    grind
+  · unfold livePart
+    rw [hmv]
+    exact ObSplit.orderBook_pick name node orders fe g I hg hin
+
+/-- the interval grid with the book's discount factors is the book's grid restricted to the interval's steps -/
+theorem interval_eq_pick (ref : Grid) (df : List Rat) (ab : Int × Int) (hidx : ref.idx = List.range ref.T) :
+    ({ (ref.interval ab.1 ab.2) with df := sel (ref.mask ab.1 ab.2) df } : Grid) =
+      ({ ref with df := df } : Grid).pick (intervalSteps ref ab) := by
+  have hpm : ({ ref with df := df } : Grid).pickMask (intervalSteps ref ab) = ref.mask ab.1 ab.2 := by
+    rw [pickMask_eq, Grid.mask_eq]
+    show ref.idx.map _ = _
+    rw [hidx]
+    apply List.ext_getElem
+    · simp [Grid.T]
+    · intro j h1 h2
+      have hj : j < ref.pts.length := by simpa using h2
+      simp only [List.getElem_map, List.getElem_range]
+      rw [Bool.eq_iff_iff, List.contains_iff_mem, mem_intervalSteps ref ab hidx]
+      have e : ref.pts.getD j 0 = ref.pts[j] := by simp [List.getD_eq_getElem?_getD, hj]
+      rw [e]
+      exact ⟨fun h => h.2, fun h => ⟨hj, h⟩⟩
+  unfold Grid.pick
+  rw [hpm]
+  show Grid.mk _ _ _ _ _ = Grid.mk _ _ _ _ _
+  congr 1
+  show List.range (sel (ref.mask ab.1 ab.2) ref.pts).length = (sel (ref.mask ab.1 ab.2) ref.idx).map _
+  have hI : sel (ref.mask ab.1 ab.2) ref.idx = intervalSteps ref ab := rfl
+  rw [hI, map_idxOf_self _ (intervalSteps_nodup ref ab hidx)]
+  congr 1
+  exact interval_T ref ab hidx
+
+/-! ### the loop of `setup_split_optim_problem` with order books -/
+
+/-- every order book has one discount factor per step of the reference grid -/
+def booksDfOk (specs : List OSpec) (ref : Grid) : Bool :=
+  specs.all fun s => match s with
+    | .asset _ => true
+    | .book _ _ _ _ df => decide (df.length = ref.T)
+
+/-- element-wise relation of two lists of the same length -/
+inductive Rel2 {α β} (R : α → β → Prop) : List α → List β → Prop
+  | nil : Rel2 R [] []
+  | cons {a b l₁ l₂} : R a b → Rel2 R l₁ l₂ → Rel2 R (a :: l₁) (b :: l₂)
+
+theorem mapM_transfer2 {ε α α' β β'} (f : α → Except ε β) (f' : α' → Except ε β') (k : α → α') (Q : β → β' → Prop)
+    (xs : List α) (ys : List β) (hxs : xs.mapM f = .ok ys)
+    (hstep : ∀ x ∈ xs, ∀ y, f x = .ok y → ∃ z, f' (k x) = .ok z ∧ Q y z) :
+    ∃ zs, (xs.map k).mapM f' = .ok zs ∧ Rel2 Q ys zs := by
+  induction xs generalizing ys with
+  | nil =>
+    have : ys = [] := by simpa [List.mapM_nil, pure, Except.pure] using hxs.symm
+    subst this; exact ⟨[], rfl, Rel2.nil⟩
+  | cons x xs ih =>
+    obtain ⟨y, ys', h1, h2, rfl⟩ := (mapM_ok_cons f x xs ys).mp hxs
+    obtain ⟨z, hz, hq⟩ := hstep x (by simp) y h1
+    obtain ⟨zs, hzs, hf⟩ := ih ys' h2 (fun x' hx' => hstep x' (by simp [hx']))
+    refine ⟨z :: zs, ?_, Rel2.cons hq hf⟩
+    rw [List.map_cons, mapM_ok_cons]
+    exact ⟨z, zs, hz, hzs, rfl⟩
+
+theorem mapM_forall2 {ε α β} (f : α → Except ε β) (R : α → β → Prop) (xs : List α)
+    (h : ∀ x ∈ xs, ∃ y, f x = .ok y ∧ R x y) : ∃ ys, xs.mapM f = .ok ys ∧ Rel2 R xs ys := by
+  induction xs with
+  | nil => exact ⟨[], rfl, Rel2.nil⟩
+  | cons x xs ih =>
+    obtain ⟨y, hy, hr⟩ := h x (by simp)
+    obtain ⟨ys, hys, hf⟩ := ih (fun x' hx' => h x' (by simp [hx']))
+    refine ⟨y :: ys, ?_, Rel2.cons hr hf⟩
+    rw [mapM_ok_cons]
+    exact ⟨y, ys, hy, hys, rfl⟩
+
+theorem forall2_live (I : List Nat) (as bs : List AssetProblem)
+    (h : Rel2 (fun A B => InertOK B ∧ livePart B = A.restrictTo I) as bs) :
+    (∀ b ∈ bs, InertOK b) ∧ bs.map livePart = as.map (fun a => a.restrictTo I) := by
+  induction h with
+  | nil => simp
+  | cons hab _ ih =>
+    refine ⟨?_, ?_⟩
+    · intro b hb
+      rcases List.mem_cons.mp hb with rfl | hb'
+      · exact hab.1
+      · exact ih.1 b hb'
+    · rw [List.map_cons, List.map_cons, hab.2, ih.2]
+
+theorem relabelNodal_wfIdx (I : List Nat) (P : Problem) : (relabelNodal I P).wfIdx = P.wfIdx := rfl
+
+/-- what one pass of the loop returns: nothing only when the interval problem of the unsplit asset problems has no
+    variable; otherwise a well-formed problem which, WITHOUT ITS INERT VARIABLES, is that interval problem -/
+def PassOK (as : List AssetProblem) (skip : List String) (ref : Grid) (ab : Int × Int) (o : Option Problem) : Prop :=
+  match o with
+  | none => (intervalProblem as skip (intervalSteps ref ab)).n = 0
+  | some Q => Q.wfIdx = true ∧ Q.dropInert = intervalProblem as skip (intervalSteps ref ab)
+
+theorem setupIntervalOB_spec (specs : List OSpec) (ref : Grid) (cuts : List Int) (prices : Prices) (u : Nat)
+    (skip : List String) (as : List AssetProblem) (ab : Int × Int)
+    (hH : obHyps specs ref cuts prices = true) (hdfb : booksDfOk specs ref = true) (hab : ab ∈ splitPairs cuts)
+    (has : buildAllOB specs ref prices u = .ok as) :
+    ∃ o, setupIntervalOB specs ref prices u skip ab = .ok o ∧ PassOK as skip ref ab o := by
+  have hH' := hH
+  unfold obHyps at hH'
+  simp only [Bool.and_eq_true] at hH'
+  obtain ⟨⟨hS, hIn⟩, _⟩ := hH'
+  obtain ⟨hidx, hdt, hdf, hprices, _, hst⟩ := splitHyps_spec _ ref cuts prices hS
+  have hI : intervalSteps ref ab ∈ (splitPairs cuts).map (intervalSteps ref) := List.mem_map_of_mem hab
+  have hB : ∀ A ∈ as, WB A ref.T := by
+    intro A hA
+    obtain ⟨s, hs, hb⟩ := mapM_mem _ specs as has A hA
+    exact (buildOSpec_intervalBanded specs ref cuts prices u hH s hs A hb).1.wb
+  unfold setupIntervalOB
+  by_cases hT : (ref.interval ab.1 ab.2).T = 0
+  · simp only [hT, if_true]
+    refine ⟨none, rfl, ?_⟩
+    have hI0 : intervalSteps ref ab = [] :=
+      List.eq_nil_of_length_eq_zero (by rw [← interval_T ref ab hidx]; exact hT)
+    show (intervalProblem as skip (intervalSteps ref ab)).n = 0
+    rw [i_interval_n as ref.T hB skip, hI0]
+    apply List.length_eq_zero_iff.mpr
+    apply List.eq_nil_iff_forall_not_mem.mpr
+    intro v hv
+    obtain ⟨_, m, _, _, hs⟩ := (mem_pkeep _ _ _).mp hv
+    simp at hs
+  · simp only [hT, if_false]
+    obtain ⟨bs, hbs, hF⟩ := mapM_transfer2 (fun s => buildOSpec s ref prices u)
+      (fun s => buildOSpec s (ref.interval ab.1 ab.2) (intervalPrices ref ab prices) u)
+      (fun s => s.onInterval ref ab)
+      (fun A B => InertOK B ∧ livePart B = A.restrictTo (intervalSteps ref ab)) specs as has (by
+        intro s hs A hA
+        cases s with
+        | asset a =>
+          have ha := mem_assetSpecs specs a hs
+          have hA' : buildSpec a ref prices u = .ok A := hA
+          refine ⟨A.restrictTo (intervalSteps ref ab),
+            buildSpec_pick a ref ab prices u A hidx hdt (hdf a ha) hprices (hst a ha _ hI) hA', ?_⟩
+          exact restrictTo_live (buildOSpec_intervalBanded specs ref cuts prices u hH (.asset a) hs A hA).1.wb _
+        | book name node orders fe df =>
+          have hA' : Except.ok (orderBookProblem name node orders fe { ref with df := df }) = Except.ok A := hA
+          injection hA' with hA'
+          subst hA'
+          have hdfl : df.length = ref.T := by
+            have := List.all_eq_true.mp hdfb _ hs
+            simpa using this
+          have h1 := List.all_eq_true.mp hIn _ hs
+          simp only [List.all_eq_true] at h1
+          have hg : ({ ref with df := df } : Grid).Ok := by
+            refine ⟨?_, hdt, hdfl⟩
+            show ref.idx.length = ref.T
+            rw [hidx]; simp
+          refine ⟨orderBookProblem name node orders fe
+            (({ ref with df := df } : Grid).pick (intervalSteps ref ab)), ?_, ?_⟩
+          · show Except.ok (orderBookProblem name node orders fe
+              ({ (ref.interval ab.1 ab.2) with df := sel (ref.mask ab.1 ab.2) df } : Grid)) = _
+            rw [interval_eq_pick ref df ab hidx]
+          · exact orderBook_live name node orders fe _ _ hg (fun o ho => h1 o ho _ hI))
+    obtain ⟨hOK, hmapeq⟩ := forall2_live _ as bs hF
+    have hJidx : (ref.interval ab.1 ab.2).idx = List.range (intervalSteps ref ab).length := by
+      show List.range _ = _
+      rw [← interval_T ref ab hidx]; rfl
+    unfold setupPortfolioOB
+    simp only [bind, Except.bind, hbs, pure, Except.pure, hJidx]
+    have hdrop : (relabelNodal (intervalSteps ref ab)
+        (assemble bs (List.range (intervalSteps ref ab).length) skip)).dropInert =
+        intervalProblem as skip (intervalSteps ref ab) := by
+      rw [relabelNodal_dropInert, assemble_dropInert bs hOK, hmapeq]
+      rfl
+    by_cases hn : (assemble bs (List.range (intervalSteps ref ab).length) skip).n = 0
+    · refine ⟨none, by simp only [hn, if_true], ?_⟩
+      show (intervalProblem as skip (intervalSteps ref ab)).n = 0
+      rw [← hdrop]
+      show (List.map _ (Problem.live _)).length = 0
+      rw [List.length_map]
+      have : (relabelNodal (intervalSteps ref ab)
+          (assemble bs (List.range (intervalSteps ref ab).length) skip)).n = 0 := hn
+      unfold Problem.live
+      rw [this]
+      rfl
+    · refine ⟨some (relabelNodal (intervalSteps ref ab)
+        (assemble bs (List.range (intervalSteps ref ab).length) skip)), by simp only [hn, if_false], ?_, hdrop⟩
+      rw [relabelNodal_wfIdx]
+      apply assemble_wfIdx
+      intro b hb
+      have h := hOK b hb
+      exact ⟨h.l_len, h.u_len, h.map_var, fun r hr q hq => ((mem_mappedVars b q.1).mp (h.rows_ok r hr q hq)).1⟩
+
+theorem filterMap_dropInert {α} (F : α → Problem) (R : α → Option Problem → Prop)
+    (hR : ∀ x o, R x o → match o with
+      | none => (F x).n = 0
+      | some Q => Q.wfIdx = true ∧ Q.dropInert = F x)
+    (L : List α) (opts : List (Option Problem)) (h : Rel2 R L opts) :
+    (∀ Q ∈ opts.filterMap id, Q.wfIdx = true ∧ ∃ x ∈ L, Q.dropInert = F x) ∧
+    (((opts.filterMap id).map Problem.dropInert).filter fun P => P.n != 0) = (L.map F).filter fun P => P.n != 0 := by
+  induction h with
+  | nil => simp
+  | @cons x o L' opts' hxo _ ih =>
+    have hx := hR x o hxo
+    cases o with
+    | none =>
+      have hx' : (F x).n = 0 := hx
+      refine ⟨?_, ?_⟩
+      · intro Q hQ
+        have hQ' : Q ∈ opts'.filterMap id := by simpa using hQ
+        obtain ⟨h1, y, hy, h2⟩ := ih.1 Q hQ'
+        exact ⟨h1, y, by simp [hy], h2⟩
+      · rw [List.map_cons, List.filter_cons]
+        simp only [hx', bne_self_eq_false, Bool.false_eq_true, if_false]
+        rw [← ih.2]
+        simp
+    | some Q0 =>
+      have hx' : Q0.wfIdx = true ∧ Q0.dropInert = F x := hx
+      refine ⟨?_, ?_⟩
+      · intro Q hQ
+        have hQ' : Q = Q0 ∨ Q ∈ opts'.filterMap id := by simpa using hQ
+        rcases hQ' with rfl | hQ'
+        · exact ⟨hx'.1, x, by simp, hx'.2⟩
+        · obtain ⟨h1, y, hy, h2⟩ := ih.1 Q hQ'
+          exact ⟨h1, y, by simp [hy], h2⟩
+      · have e : (some Q0 :: opts').filterMap id = Q0 :: opts'.filterMap id := by simp
+        rw [e, List.map_cons, List.map_cons, hx'.2, List.filter_cons, List.filter_cons, ih.2]
+
+/-- **The witness modulo inert variables holds for the LITERAL split set-up** of every portfolio of the five builders
+    plus order books under `obHyps` (and one discount factor per step for every book): no certificate. -/
+theorem setupSplitOB_witness (specs : List OSpec) (ref : Grid) (cuts : List Int) (prices : Prices) (u : Nat)
+    (skip : List String) (U : Problem) (ps : List Problem)
+    (hH : obHyps specs ref cuts prices = true) (hdfb : booksDfOk specs ref = true)
+    (hU : setupPortfolioOB specs ref prices u skip = .ok U)
+    (hS : setupSplitOB specs ref cuts prices u skip = .ok ps) :
+    splitWitnessModInert U ps (splitPermLive U ((splitPairs cuts).map (intervalSteps ref))) = true := by
+  obtain ⟨as, has, rfl⟩ := setupPortfolioOB_ok hU
+  have hH' := hH
+  unfold obHyps at hH'
+  simp only [Bool.and_eq_true] at hH'
+  obtain ⟨hidx, _, _, _, hpart, _⟩ := splitHyps_spec _ ref cuts prices hH'.1.1
+  have hAll : ∀ A ∈ as, IntervalBanded A ref.T ((splitPairs cuts).map (intervalSteps ref)) ∧
+      RowsInside A ((splitPairs cuts).map (intervalSteps ref)) := by
+    intro A hA
+    obtain ⟨s, hs, hb⟩ := mapM_mem _ specs as has A hA
+    exact buildOSpec_intervalBanded specs ref cuts prices u hH s hs A hb
+  have hB : ∀ A ∈ as, WB A ref.T := fun A hA => (hAll A hA).1.wb
+  rw [hidx]
+  have hw := witness_of_interval_banded as ref.T _ skip (fun A hA => (hAll A hA).1) hpart
+    (fun A hA => (hAll A hA).2)
+  -- the unsplit problem has no inert variable
+  have hUd : (assemble as (List.range ref.T) skip).dropInert = assemble as (List.range ref.T) skip := by
+    rw [assemble_dropInert as (fun a ha => (wb_live (hB a ha)).1)]
+    congr 1
+    conv => rhs; rw [← List.map_id as]
+    exact List.map_congr_left (fun a ha => (wb_live (hB a ha)).2)
+  -- the loop
+  obtain ⟨opts, hopts, hF⟩ := mapM_forall2 (setupIntervalOB specs ref prices u skip) (PassOK as skip ref)
+    (splitPairs cuts) (fun ab hab => setupIntervalOB_spec specs ref cuts prices u skip as ab hH hdfb hab has)
+  have hps : ps = opts.filterMap id := by
+    unfold setupSplitOB at hS
+    simp only [bind, Except.bind, hopts, pure, Except.pure] at hS
+    split at hS
+    · cases hS
+    · split at hS
+      · cases hS
+      · injection hS with hS
+        exact hS.symm
+  obtain ⟨hwfQ, hfilt⟩ := filterMap_dropInert (fun ab => intervalProblem as skip (intervalSteps ref ab))
+    (PassOK as skip ref) (fun x o h => h) (splitPairs cuts) opts hF
+  rw [← hps] at hwfQ hfilt
+  have hfilt' : ((ps.map Problem.dropInert).filter fun P => P.n != 0) =
+      (((splitPairs cuts).map (intervalSteps ref)).map (intervalProblem as skip)).filter fun P => P.n != 0 := by
+    rw [hfilt, List.map_map]
+    rfl
+  have hmemIP : ∀ P ∈ ps.map Problem.dropInert, ∃ I, P = intervalProblem as skip I := by
+    intro P hP
+    obtain ⟨Q, hQ, rfl⟩ := List.mem_map.mp hP
+    obtain ⟨_, ab, _, h2⟩ := hwfQ Q hQ
+    exact ⟨_, h2⟩
+  have hwf1 : ∀ P ∈ ps.map Problem.dropInert, P.wfIdx = true := by
+    intro P hP
+    obtain ⟨I, rfl⟩ := hmemIP P hP
+    exact i_intervalProblem_wfIdx as ref.T hB skip I
+  have hr1 : ∀ P ∈ ps.map Problem.dropInert, ∀ r ∈ P.rows, r.coeffs ≠ [] := by
+    intro P hP
+    obtain ⟨I, rfl⟩ := hmemIP P hP
+    exact i_intervalProblem_rows_ne as ref.T hB skip I
+  have hwf2 : ∀ P ∈ ((splitPairs cuts).map (intervalSteps ref)).map (intervalProblem as skip), P.wfIdx = true := by
+    intro P hP
+    obtain ⟨I, _, rfl⟩ := List.mem_map.mp hP
+    exact i_intervalProblem_wfIdx as ref.T hB skip I
+  have hr2 : ∀ P ∈ ((splitPairs cuts).map (intervalSteps ref)).map (intervalProblem as skip),
+      ∀ r ∈ P.rows, r.coeffs ≠ [] := by
+    intro P hP
+    obtain ⟨I, _, rfl⟩ := List.mem_map.mp hP
+    exact i_intervalProblem_rows_ne as ref.T hB skip I
+  have hbs : blockSum (ps.map Problem.dropInert) =
+      blockSum (((splitPairs cuts).map (intervalSteps ref)).map (intervalProblem as skip)) := by
+    have e1 := blockSum_filter (ps.map Problem.dropInert) hwf1 hr1 0
+    have e2 := blockSum_filter _ hwf2 hr2 0
+    show assembleFrom 0 _ = assembleFrom 0 _
+    rw [← e1, ← e2, hfilt']
+  unfold splitWitness at hw
+  simp only [Bool.and_eq_true] at hw
+  obtain ⟨⟨⟨h1, _⟩, h3⟩, h4⟩ := hw
+  unfold splitWitnessModInert splitPermLive
+  rw [hUd]
+  unfold splitWitness
+  simp only [Bool.and_eq_true]
+  refine ⟨⟨h1, ?_⟩, ⟨⟨h1, ?_⟩, h3⟩, ?_⟩
+  · rw [List.all_eq_true]
+    exact fun Q hQ => (hwfQ Q hQ).1
+  · rw [List.all_eq_true]
+    exact hwf1
+  · rw [hbs]
+    exact h4
+
+/-- the split set-up succeeds when the unsplit problem has a variable -/
+theorem setupSplitOB_succeeds (specs : List OSpec) (ref : Grid) (cuts : List Int) (prices : Prices) (u : Nat)
+    (skip : List String) (U : Problem)
+    (hH : obHyps specs ref cuts prices = true) (hdfb : booksDfOk specs ref = true)
+    (hU : setupPortfolioOB specs ref prices u skip = .ok U) (hpos : 0 < U.n) :
+    ∃ ps, setupSplitOB specs ref cuts prices u skip = .ok ps := by
+  obtain ⟨as, has, rfl⟩ := setupPortfolioOB_ok hU
+  have hH' := hH
+  unfold obHyps at hH'
+  simp only [Bool.and_eq_true] at hH'
+  obtain ⟨hidx, _, _, hprices, hpart, _⟩ := splitHyps_spec _ ref cuts prices hH'.1.1
+  have hAll : ∀ A ∈ as, IntervalBanded A ref.T ((splitPairs cuts).map (intervalSteps ref)) := by
+    intro A hA
+    obtain ⟨s, hs, hb⟩ := mapM_mem _ specs as has A hA
+    exact (buildOSpec_intervalBanded specs ref cuts prices u hH s hs A hb).1
+  have hB : ∀ A ∈ as, WB A ref.T := fun A hA => (hAll A hA).wb
+  obtain ⟨opts, hopts, hF⟩ := mapM_forall2 (setupIntervalOB specs ref prices u skip) (PassOK as skip ref)
+    (splitPairs cuts) (fun ab hab => setupIntervalOB_spec specs ref cuts prices u skip as ab hH hdfb hab has)
+  obtain ⟨_, hfilt⟩ := filterMap_dropInert (fun ab => intervalProblem as skip (intervalSteps ref ab))
+    (PassOK as skip ref) (fun x o h => h) (splitPairs cuts) opts hF
+  have hp : (prices.any fun kv => kv.2.length != ref.T) = false := by
+    rw [Bool.eq_false_iff]
+    intro h
+    obtain ⟨kv, hkv, hb⟩ := List.any_eq_true.mp h
+    simp [hprices kv hkv] at hb
+  have hne : (opts.filterMap id).isEmpty = false := by
+    cases hh : opts.filterMap id with
+    | cons _ _ => rfl
+    | nil =>
+      exfalso
+      rw [hh] at hfilt
+      have hnil : (((splitPairs cuts).map (intervalSteps ref)).map (intervalProblem as skip)).filter
+          (fun P => P.n != 0) = [] := by
+        rw [List.map_map]
+        exact hfilt.symm
+      obtain ⟨_, hd⟩ := isPartition_spec _ _ hpart
+      have hperm := i_splitPerm_isPerm as ref.T hB _ hpart (i_keep_disjoint as ref.T _ hAll hd)
+      have hlen : (((splitPairs cuts).map (intervalSteps ref)).flatMap fun I => (assembleFrom 0 as).keep I).length =
+          (assembleFrom 0 as).n := by
+        unfold isPermOf at hperm
+        simp only [Bool.and_eq_true, decide_eq_true_eq] at hperm
+        exact hperm.1.1.1
+      have hall : ∀ I ∈ (splitPairs cuts).map (intervalSteps ref), (assembleFrom 0 as).keep I = [] := by
+        intro I hI
+        have hmem : intervalProblem as skip I ∈ ((splitPairs cuts).map (intervalSteps ref)).map (intervalProblem as skip) :=
+          List.mem_map_of_mem hI
+        have : ¬ ((intervalProblem as skip I).n != 0) = true := by
+          intro hn
+          have : intervalProblem as skip I ∈ (((splitPairs cuts).map (intervalSteps ref)).map (intervalProblem as skip)).filter
+              fun P => P.n != 0 := List.mem_filter.mpr ⟨hmem, hn⟩
+          rw [hnil] at this
+          simp at this
+        have hn0 : (intervalProblem as skip I).n = 0 := by simpa using this
+        rw [i_interval_n as ref.T hB skip I] at hn0
+        exact List.eq_nil_of_length_eq_zero hn0
+      have : (((splitPairs cuts).map (intervalSteps ref)).flatMap fun I => (assembleFrom 0 as).keep I) = [] := by
+        apply List.eq_nil_iff_forall_not_mem.mpr
+        intro v hv
+        obtain ⟨I, hI, hvI⟩ := List.mem_flatMap.mp hv
+        rw [hall I hI] at hvI
+        simp at hvI
+      rw [this] at hlen
+      have hn : (assemble as ref.idx skip).n = (assembleFrom 0 as).n := assemble_n _ _ _
+      rw [hn, ← hlen] at hpos
+      simp at hpos
+  refine ⟨opts.filterMap id, ?_⟩
+  unfold setupSplitOB
+  simp only [bind, Except.bind, hp, Bool.false_eq_true, if_false, hopts, pure, Except.pure, hne]
 
 
 end EAO.ObSplit2
